@@ -47,6 +47,7 @@ type Program struct {
 	AllFuncs  map[*ssa.Function]bool
 	LoopSpecs map[string]*Item // "pkgpath.Func" / "pkgpath.(Recv).Method" -> item with loop specs
 	Warnings  []string
+	Injected  map[string][]byte
 }
 
 type srcDecl struct {
@@ -600,12 +601,14 @@ func LoadProgram(repo string, props map[string]bool) (*Program, error) {
 	})
 	sort.Strings(files)
 	byDir := map[string][]*ContractFile{}
+	allItems := map[string][]*Item{}
 	var dirs []string
 	for _, f := range files {
 		cf, err := ParseContractFile(repo, f)
 		if err != nil {
 			return nil, err
 		}
+		allItems[cf.PkgDir] = append(allItems[cf.PkgDir], cf.Items...)
 		// filter items by property
 		if props != nil {
 			var keep []*Item
@@ -616,7 +619,7 @@ func LoadProgram(repo string, props map[string]bool) (*Program, error) {
 						ok = true
 					}
 				}
-				if ok || len(it.Loops) > 0 && len(it.Clauses) == 0 {
+				if ok {
 					keep = append(keep, it)
 				}
 			}
@@ -657,8 +660,28 @@ func LoadProgram(repo string, props map[string]bool) (*Program, error) {
 			patterns = append(patterns, modPath+"/"+d)
 		}
 	}
+	// loop invariants / ghost statements are injected into in-memory copies of the source files
+	injected := map[string][]byte{}
+	var injDirs []string
+	for d := range allItems {
+		injDirs = append(injDirs, d)
+	}
+	sort.Strings(injDirs)
+	for _, d := range injDirs {
+		ov, err := injectLoops(repo, d, allItems[d], func(w string) { p.Warnings = append(p.Warnings, w) })
+		if err != nil {
+			return nil, err
+		}
+		for k, v := range ov {
+			injected[k] = v
+		}
+	}
+	p.Injected = injected
 	for attempt := 0; attempt < 6; attempt++ {
 		overlay := map[string][]byte{}
+		for k, v := range injected {
+			overlay[k] = v
+		}
 		p.Harnesses = nil
 		ghostPath := map[string]string{}
 		harnByDir := map[string][]*Harness{}
